@@ -14,14 +14,14 @@ RULE = ("worlds from dsim.world (1-8 stations, chains of sessions per station wi
         "station reuse or >=1 period with >=3 events; distinct = distinct per-period history signature "
         "<event kinds, invoked?, fault, #connected, #charging>")
 PROBES = ["back_to_back", "pileup3", "recompute_only_period", "resumed", "stay1", "idle_prefix", "crash_last_period",
-          "constraint_free_sorted", "custom_event_in_run", "resume_json", "stochastic_network_world", "stochastic_json_resume"]
+          "constraint_free_sorted", "custom_event_in_run", "resume_json", "stochastic_network_world", "stochastic_json_resume", "second_life"]
 FAULT_DIMENSION = "scheduler crash at arbitrary calls (incl. last period), resumed by rerun or via a JSON save/load of the simulator"
 ASSUMPTIONS = ["sessions of one station do not overlap (generator guarantees it)",
                "plug-in event timestamp == ev.arrival",
                "tie order inside one (timestamp, precedence) class is not constrained"]
 PREC = {"Unplug": 0, "Plugin": 1, "Recompute": 2, "Event": 3}
 
-PROFILE = world.profile(stations=(1, 8), faults={"crash": 0.5}, resume_modes=["rerun", "rerun", "json_str", "json_file"], custom_events=0.2,
+PROFILE = world.profile(second_life=0.15, stations=(1, 8), faults={"crash": 0.5}, resume_modes=["rerun", "rerun", "json_str", "json_file"], custom_events=0.2,
                         party={"scripted": 4, "uncontrolled": 2, "greedy": 2, "rr": 1})
 
 
@@ -60,6 +60,7 @@ def check(sc):
     out.probe("back_to_back", b2b)
     out.probe("pileup3", pile)
     out.probe("recompute_only_period", sum(1 for t, l in ev.items() if all(k == "Recompute" for k, _ in l)))
+    out.probe("second_life", tr.fault_counts.get("second_life", 0))
     out.probe("resumed", len(tr.resumes))
     out.probe("resume_json", sum(1 for r in tr.resumes if r["mode"] != "rerun"))
     out.probe("custom_event_in_run", sum(1 for e in sc["extra_events"] if e.get("type") == "Event"))
